@@ -209,6 +209,50 @@ proof! {
 	}
 }
 
+#[cfg(kani)]
+proof! {
+	[secp, hash_mix, sort] fn deaggregate_known_subset_kernel_only() {
+		// deaggregate(mk, [t]) where mk carries the kernels of t and of one other transaction
+		// (kernel-only transactions: inputs and outputs go through the same cut-through that
+		// c12::cut_through_* decide): the remainder holds exactly the other kernel and its offset
+		// is mk's offset minus t's (model scalar group) - also when either offset is zero
+		use agg::*;
+		use crate::secp_model as m;
+		use grin_core::core::hash::Hashed;
+		use grin_core::core::transaction::{deaggregate, FeeFields, KernelFeatures};
+		use grin_core::core::{Inputs, Transaction, TransactionBody, TxKernel};
+		use grin_keychain::BlindingFactor;
+		use grin_util::secp::Signature;
+		let kernel = |v: u16| {
+			let fb = 7u64.to_be_bytes();
+			let fee: FeeFields = grin_core::ser::deserialize_default(&mut &fb[..]).unwrap();
+			TxKernel { features: KernelFeatures::Plain { fee }, excess: m::pack(v, 1), excess_sig: Signature::from_raw_data(&[1u8; 64]).unwrap() }
+		};
+		let v1: u16 = nd::any();
+		let v2: u16 = nd::any();
+		nd::assume(v1 != v2);
+		let k1 = kernel(v1);
+		let k2 = kernel(v2);
+		// the (non-injective) model hash must not identify the two kernels: real hashes differ
+		nd::assume(k1.hash() != k2.hash());
+		let om: u16 = nd::any();
+		let o2: u16 = nd::any();
+		let swap: bool = nd::any();
+		let ks = if swap { vec![k2, k1] } else { vec![k1, k2] };
+		let mk = Transaction { offset: BlindingFactor::from_secret_key(m::key_of(om)), body: TransactionBody { inputs: Inputs::default(), outputs: vec![], kernels: ks } };
+		let t = Transaction { offset: BlindingFactor::from_secret_key(m::key_of(o2)), body: TransactionBody { inputs: Inputs::default(), outputs: vec![], kernels: vec![k2] } };
+		let r = deaggregate(mk, &[t]);
+		check!(r.is_ok(), "a known subset de-aggregates");
+		let rem = r.unwrap();
+		check!(rem.kernels().len() == 1 && rem.kernels()[0].excess == k1.excess, "the remainder holds exactly the other kernel");
+		check!(rem.inputs().len() == 0 && rem.outputs().is_empty(), "nothing else appears");
+		check!(offset_of(&rem) == om.wrapping_sub(o2), "remainder offset = aggregate offset - known offset");
+		cover!(o2 == 0 && om != 0, "the known transaction has a zero offset");
+		cover!(om == 0 && o2 != 0, "the aggregate has a zero offset");
+		core::mem::forget(rem);
+	}
+}
+
 pub const HARNESSES: &[(&str, fn())] = &[
 	("c12::cut_through_2_2", cut_through_2_2),
 	("c12::cut_through_1_2", cut_through_1_2),
